@@ -295,12 +295,21 @@ class Compiler:
         if not isinstance(e.func, ast.Attribute):
             self.err(e, 'unsupported call %s' % ast.unparse(e), fr)
         tgt = self.obj_of(e.func.value, fr)
+        lookup_cls = None
+        if tgt is None and isinstance(e.func.value, ast.Name) and e.func.value.id in self.sources \
+                and e.func.value.id not in fr.env and e.args:
+            # explicit base-class call  Class.method(self, ...)
+            first = self.obj_of(e.args[0], fr)
+            if isinstance(first, Obj):
+                lookup_cls = e.func.value.id
+                tgt = first
+                e = ast.copy_location(ast.Call(func=e.func, args=e.args[1:], keywords=e.keywords), e)
         if not isinstance(tgt, Obj):
             self.err(e, 'call on unknown object %s' % ast.unparse(e), fr)
         if fr.depth + 1 > self.max_depth:
             self.err(e, 'inlining too deep', fr)
-        src = self.sources[tgt.cls]
-        fn, owner = src.method(tgt.cls, e.func.attr)
+        src = self.sources[lookup_cls or tgt.cls]
+        fn, owner = src.method(lookup_cls or tgt.cls, e.func.attr)
         params = [a.arg for a in fn.args.args]
         if fn.args.kwarg or fn.args.kwonlyargs or e.keywords or \
                 (fn.args.vararg and len(e.args) > len(params) - 1):
